@@ -194,7 +194,9 @@ def r1(ctx):
             rets = [n for n in walk_own(rfi.node) if isinstance(n, ast.Return)]
             ctor = {"map": "{}", "seq": "[]", "set": "set("}[kind]
             src = [n for n in walk_own(rfi.node) if isinstance(n, ast.Assign) and rets and norm(n.targets[0]) == norm(rets[0].value)]
-            ctx.check(bool(src) and norm(src[0].value).startswith(ctor), "C13.R1", rfi, "%s returns a %s" % (rname, kind), witness=[norm(s.value)[:40] for s in src])
+            direct = bool(rets) and norm(rets[0].value).startswith(ctor)        # `return set([...])` without a temporary
+            ctx.check((bool(src) and norm(src[0].value).startswith(ctor)) or direct, "C13.R1", rfi, "%s returns a %s" % (rname, kind),
+                      witness=[norm(s.value)[:40] for s in src] or [norm(r.value)[:40] for r in rets])
     # Serializable / enum objects
     sv = ctx.fn("%s:serialize_value" % M)
     for cls in ("Serializable", "SerializableEnum"):
@@ -222,7 +224,20 @@ def r1(ctx):
     ok = len(us) == 1 and fmt_fields(us[0].fmt) == (">", ["H"]) and len(rd) == 1 and ctx.folder.fold(rd[0].args[0], dvf.module) == 2
     ctx.check(ok, "C13.R1", dvf, "every value starts with a '>H' tag / type id read from exactly 2 bytes", witness=[s.fmt for s in us])
     # dispatch: tag in deserialize_types -> that reader; tag in registry -> registry[tag]().deserialize(stream)
-    calls = [norm(c) for c in walk_own(dvf.node) if isinstance(c, ast.Call)]
+    # (a callee held in a temporary is read through it: `typ_ = deserialize_types[type_id] ... typ_(stream)`, also when the
+    # temporary has one definition per branch and a flag selects the use)
+    from .common import sym_expr
+    dcfg = cfg_of(dvf)
+    calls = []
+    for c in walk_own(dvf.node):
+        if isinstance(c, ast.Call):
+            cn = dcfg.node_of(c)
+            if cn is not None and isinstance(c.func, ast.Name):
+                f2 = sym_expr(dvf, c.func, cn)
+                c2 = ast.Call(func=f2, args=c.args, keywords=c.keywords)
+                calls.append(norm(ast.fix_missing_locations(ast.parse(ast.unparse(c2), mode="eval").body)))
+            else:
+                calls.append(norm(c))
     ok = any(c.startswith("deserialize_types[type_id](%s" % dvf.params[0]) for c in calls) and "registry[type_id]()" in calls and any(c.startswith("obj.deserialize(%s" % dvf.params[0]) for c in calls)
     ctx.check(ok, "C13.R1", dvf, "tag dispatch: builtin reader or registered class instance .deserialize(stream)", witness=calls[:12])
     ser = ctx.fn("%s:Serializable.serialize" % M)
